@@ -418,6 +418,28 @@ func GzipVariant(b []byte, kind string) []byte {
 // (stored blocks only).
 func DeflateVariant(b []byte, kind string) []byte {
 	var buf bytes.Buffer
+	if kind == "zlibish" {
+		// A legal RAW deflate stream whose first two bytes look like a zlib header: a non-final stored
+		// block (BFINAL 0, BTYPE 00; the five padding bits of its first byte are free: 0x08 .. 0x78) whose
+		// LEN low byte makes (b0<<8 | b1) a multiple of 31, followed by ordinary deflate blocks for the rest.
+		// A decoder that sniffs "zlib or raw deflate" from those two bytes takes the wrong one.
+		b0 := byte(0x08 + 0x10*(len(b)%8))
+		n := -1
+		for c := 0; c < 256 && c <= len(b); c++ {
+			if (int(b0)<<8|c)%31 == 0 && c > 0 {
+				n = c
+			}
+		}
+		if n > 0 {
+			buf.Write([]byte{b0, byte(n), 0, ^byte(n), 0xff})
+			buf.Write(b[:n])
+			b = b[n:]
+		}
+		w, _ := flate.NewWriter(&buf, flate.DefaultCompression)
+		w.Write(b)
+		w.Close()
+		return buf.Bytes()
+	}
 	level := flate.DefaultCompression
 	if kind == "stored" {
 		level = flate.NoCompression
